@@ -197,10 +197,10 @@ REGISTRY = {
         "rule": "cases = (ring topology, replication strategy, token, datacenter restriction, pre-computed or not); rings of up to 12 nodes x 3 DCs x 4 racks incl. rack-less / DC-less nodes, vnodes, extreme and duplicate tokens; per ring every DC x RF 0..nodes+2; "
                 "tokens = ring tokens, +-1, extremes, midpoints (capped at 40 quick / 96 thorough); one locator pre-computes a random subset of the strategies, a second one nothing; one evaluation = one query (token x locator x datacenter restriction); non-trivial = some token has a non-empty replica set; distinct = distinct (ring, strategy)",
         "assumptions": COMMON_ASSUME,
-        "quick": [{"variant": "dbg", "scale": 0.5}],
-        "thorough": [{"variant": "dbg", "scale": 1.0, "timeout_t": 5400}],
+        "quick": [{"variant": "dbg", "scale": 0.5}, {"variant": "dbg", "part": "b"}],
+        "thorough": [{"variant": "dbg", "scale": 1.0, "timeout_t": 5400}, {"variant": "dbg", "part": "b"}],
         "level_text": "Every generated (ring, strategy, token) is answered by the real ReplicaLocator and compared with a 30-line model of the servers' placement rule, plus the statement's internal relations (pre-computed == on-the-fly, DC filter, len == iteration == ordered view, choose_filtered membership, ring order). Sampled inputs, exhaustive RF range per ring.",
-        "level_note": "trusted: refmodel/replication.rs; ClusterState is built by the real ClusterState::new through the ClusterProbe hook (nodes disabled by a host filter)",
+        "level_note": "trusted: refmodel/replication.rs; ClusterState is built by the real ClusterState::new through the ClusterProbe hook (nodes disabled by a host filter); part b (hook-free) serves generated topologies from mock nodes to a real Session and compares ClusterState::get_token_endpoints with the model, which also covers the parsing of system.peers / system_schema.keyspaces",
         "design_ref": "DESIGN.md §4 C04",
     },
     "C09": {
@@ -246,10 +246,10 @@ REGISTRY = {
                 "generated as an exhaustive grid for small shard counts (all shards x a boundary family of ranges: ranges shorter than the shard count, ending at 65535, starting at every residue) plus seeded random cases up to 65535 shards; "
                 "a case is non-trivial when shard count > 1 (shard_of) / always (ports); distinct = distinct parameter tuples",
         "assumptions": COMMON_ASSUME,
-        "quick": [{"variant": "dbg"}],
-        "thorough": [{"variant": "dbg"}, {"variant": "rel"}],
+        "quick": [{"variant": "dbg"}, {"variant": "dbg", "part": "b"}],
+        "thorough": [{"variant": "dbg"}, {"variant": "rel"}, {"variant": "dbg", "part": "b"}],
         "level_text": "Every generated (shard count, msb, token) and (shard count, shard, port range) is evaluated by the real Sharder and compared with a 10-line model of ScyllaDB's documented algorithm; small shard counts and the boundary range family are enumerated completely, the rest is sampled. Held-on-what-was-explored, not a proof.",
-        "level_note": "trusted: the model in harness/src/refmodel/sharding.rs; the *_from_range functions are reached through a pass-through hook; drawn ports are random, so each draw is one sample of the draw distribution",
+        "level_note": "trusted: the model in harness/src/refmodel/sharding.rs; the *_from_range functions are reached through a pass-through hook; drawn ports are random, so each draw is one sample of the draw distribution; part b (hook-free): a real pool with a custom ShardAwarePortRange against a sharded mock node - every shard-aware connection's source port must lie in the range and the pool must reach every shard",
         "design_ref": "DESIGN.md §4 C11",
     },
 }
